@@ -316,10 +316,16 @@ void StatementBuilder::decl_init_list(uint32_t num)
     vector<type_t> types;
     vector<string> labels;
     for (uint32_t i = 0; i < num; i++) {
-        type_t type = fields[i].get_type();
-        types.push_back(type[0]);
-        labels.push_back(type.get_label(0));
-        fields[i].set_type(type[0]);
+        // after a syntax error inside the list a field may not have gone through decl_field_init()
+        type_t type = fields[i].empty() ? type_t() : fields[i].get_type();
+        if (type.get_kind() == LABEL && type.size() > 0) {
+            types.push_back(type[0]);
+            labels.push_back(type.get_label(0));
+            fields[i].set_type(type[0]);
+        } else {
+            types.push_back(type);
+            labels.emplace_back();
+        }
     }
 
     // Create list expression
